@@ -40,6 +40,7 @@ fn run_case(family: &str, args: &[u128]) -> Vec<u128> {
         "sched" => sched::sched(args),
         "shortw" => sched::shortw(args),
         "fault" => fault::fault(args),
+        "poststep" | "poststep9" => proto::poststep(args),
         "bao" => proto::bao_case(args),
         "copy" => proto::copy_case(args),
         "grow" => proto::grow_case(args),
